@@ -344,7 +344,7 @@ def c19_config(rng):
 
 def plan(tier):
     if tier == "thorough":
-        return dict(cases=1440, shards=16, timeout=3400, min_nontrivial=400, case_alarm=1500)
+        return dict(cases=960, shards=16, timeout=6000, min_nontrivial=400, case_alarm=1500)
     return dict(cases=80, shards=16, timeout=560, min_nontrivial=60, case_alarm=400)
 
 
